@@ -110,6 +110,8 @@ def tag_of(case):
         tags.append('nonfinal')
     if kinds & set(H.MALFORMED_KINDS):
         tags.append('malformed')
+    if case.get('_repeat'):
+        tags.append('second-use')
     return '+'.join(tags) or 'plain'
 
 
@@ -143,8 +145,32 @@ def judge(res, case, rec, extra):
         rec.count('worker_threads_died')
 
 
+def run_wide(spec, rec):
+    '''More simultaneously ready tasks than any queue bound.'''
+    seed = spec['seed']
+    nwide = 2 if spec['tier'] == 'quick' else 12
+    for widx in range(nwide):
+        rng = core.rng_for(seed, PROP, 'wide', spec['shard'], widx)
+        case = H.gen_wide(rng, rng.choice([1, 2]))
+        case['outcomes'] = {n: 'ok' for n in case['tasks']}
+        case['init'] = {}
+        case['cyclic'] = None
+        res = H.run_controlled(case, C.RandomWalk(rng), max_steps=400000)
+        rec.count('evaluations')
+        rec.count('wide_runs')
+        if res.outcome == 'lost':
+            rec.count('engine_lost_control')
+            continue
+        rec.count('controlled_runs')
+        judge(res, case, rec, {'engine': 'controlled',
+                               'choices': res.choices[:50],
+                               'wide': [seed, spec['shard'], widx]})
+
+
 def run_random(spec, rec):
     tier, seed = spec['tier'], spec['seed']
+    if spec['shard'] in (0, 1):
+        run_wide(spec, rec)
     for idx in range(spec['lo'], spec['hi']):
         rng = core.rng_for(seed, PROP, 'case', idx)
         case = gen_case(rng, tier)
@@ -162,8 +188,11 @@ def run_random(spec, rec):
             if sidx == nsched - 1:
                 fine = (core.rng_for(seed, PROP, 'fine', idx), 0.08)
                 rec.count('fine_grained_runs')
-            res = H.run_controlled(case, strat, fine=fine)
-            if fine is None:
+            repeat = 2 if (sidx == 1 and not case['cyclic']) else 1
+            if repeat == 2:
+                rec.count('scheduler_used_twice')
+            res = H.run_controlled(case, strat, fine=fine, repeat=repeat)
+            if fine is None and repeat == 1:
                 est = max(10, res.steps)
             rec.count('evaluations')
             if res.outcome == 'lost':
@@ -172,9 +201,9 @@ def run_random(spec, rec):
                 continue
             rec.count('controlled_runs')
             rec.count('scheduling_points', res.steps)
-            judge(res, case, rec, {'engine': 'controlled',
-                                   'choices': res.choices,
-                                   'hashseed': spec.get('hashseed', 0)})
+            judge(res, dict(case, _repeat=repeat > 1), rec,
+                  {'engine': 'controlled', 'choices': res.choices,
+                   'repeat': repeat, 'hashseed': spec.get('hashseed', 0)})
             rec.seen((case_class(case), res.trace_hash))
         if idx == spec['lo']:
             rec.sample({'case': case, 'outcome': res.outcome,
@@ -291,7 +320,9 @@ def replay(case, rec):
             judge(res, cas, rec, {'engine': 'controlled',
                                   'choices': res.choices})
         return
-    res = H.run_controlled(cas, C.Replay(case['choices']))
+    res = H.run_controlled(cas, C.Replay(case['choices']),
+                           repeat=case.get('repeat', 1))
     judge(res, cas, rec, {'engine': 'controlled',
-                          'choices': case['choices']})
+                          'choices': case['choices'],
+                          'repeat': case.get('repeat', 1)})
     rec.note('replayed', {'outcome': res.outcome, 'leaked': res.leaked})
